@@ -784,18 +784,49 @@ theorem shouldAbsorb_ram (s : State) (k : Key) :
     shouldAbsorb (releaseActionMappings s).1 k = shouldAbsorb s k := by
   simp [shouldAbsorb, (releaseActionMappings_frame s).2.2.2.1]
 
-theorem addPhase2_nonaction (s : State) (k : Key) (m : Mapping) (h : isActionMapping m = false) :
+/-- the last output key is one of the output keys: a key-producing mapping (`is_action_mapping`) produces an
+action key (`produces_action_key`, the condition of the phase-2 block since the fix of D7) -/
+theorem producesActionKey_of_isActionMapping (m : Mapping) (h : isActionMapping m = true) :
+    producesActionKey m = true := by
+  unfold isActionMapping at h
+  cases hl : m.to.getLast? with
+  | none => simp [hl] at h
+  | some kl =>
+    simp only [hl] at h
+    simp only [producesActionKey, List.any_eq_true]
+    exact ⟨kl, List.mem_of_getLast? hl, h⟩
+
+theorem producesActionKey_iff (m : Mapping) :
+    producesActionKey m = true ↔ ∃ y, y ∈ m.to ∧ isActionKey y = true := by
+  simp [producesActionKey]
+
+/-- a mapping that outputs modifiers only: `produces_action_key` is false -/
+theorem producesActionKey_false_iff (m : Mapping) :
+    producesActionKey m = false ↔ ∀ y, y ∈ m.to → isActionKey y = false := by
+  simp [producesActionKey]
+
+/-- … and then `is_action_mapping` is false as well -/
+theorem isActionMapping_false_of_not_produces (m : Mapping) (h : producesActionKey m = false) :
+    isActionMapping m = false := by
+  cases ha : isActionMapping m with
+  | false => rfl
+  | true => rw [producesActionKey_of_isActionMapping m ha] at h; cases h
+
+/-- (restated on `producesActionKey` with the fix of D7; it was `isActionMapping m = false`) -/
+theorem addPhase2_nonaction (s : State) (k : Key) (m : Mapping) (h : producesActionKey m = false) :
     addPhase2 s k m = (s, []) := by
   simp [addPhase2, h]
 
-theorem addPhase2_absorb (s : State) (k : Key) (m : Mapping) (h : isActionMapping m = true)
+/-- (restated on `producesActionKey` with the fix of D7; it was `isActionMapping m = true`) -/
+theorem addPhase2_absorb (s : State) (k : Key) (m : Mapping) (h : producesActionKey m = true)
     (h2 : shouldAbsorb s k = true) :
     addPhase2 s k m = (afterConsume (releaseAbsorbedKeys (releaseActionMappings s).1).1 m,
       (releaseActionMappings s).2 ++ (releaseAbsorbedKeys (releaseActionMappings s).1).2 ++
         (consume m (releaseAbsorbedKeys (releaseActionMappings s).1).1.pass).2.2) := by
   simp [addPhase2, h, shouldAbsorb_ram, h2, addPhase1_eq]
 
-theorem addPhase2_noabsorb (s : State) (k : Key) (m : Mapping) (h : isActionMapping m = true)
+/-- (restated on `producesActionKey` with the fix of D7; it was `isActionMapping m = true`) -/
+theorem addPhase2_noabsorb (s : State) (k : Key) (m : Mapping) (h : producesActionKey m = true)
     (h2 : shouldAbsorb s k = false) :
     addPhase2 s k m = releaseActionMappings s := by
   simp [addPhase2, h, shouldAbsorb_ram, h2]
@@ -806,7 +837,7 @@ theorem addPhase2_spec (s : State) (k : Key) (m : Mapping) (h : IInv m.to s) :
     IInv m.to (addPhase2 s k m).1 ∧ IRelW s (addPhase2 s k m).1 (addPhase2 s k m).2 ∧
     (addPhase2 s k m).1.repTrig = s.repTrig ∧
     (∀ x, x ∈ s.inp → (shouldAbsorb s k = true → x ∉ s.absorbed) → x ∈ (addPhase2 s k m).1.inp) := by
-  cases ha : isActionMapping m
+  cases ha : producesActionKey m
   · rw [addPhase2_nonaction s k m ha]
     exact ⟨h, IRelW.refl s, rfl, fun x hx _ => hx⟩
   · have h1 := releaseActionMappings_spec h
